@@ -348,7 +348,7 @@ func c18Table(c *c18Case, dir string, ml *mismatchLog) {
 	}
 	tr, err := sstables.NewSSTableReader(ropts...)
 	must(err)
-	defer tr.Close()
+	defer func() { tr.Close() }()
 	key := func(i int) []byte { return []byte(fmt.Sprintf("key-%05d", i)) } // odd = missing
 	type ans struct {
 		get  []byte
@@ -379,6 +379,11 @@ func c18Table(c *c18Case, dir string, ml *mismatchLog) {
 		rangeKeys = append(rangeKeys, k)
 	}
 	sortPairs(rangeKeys)
+	// the concurrent calls go to a fresh reader that has not answered anything yet: whatever a reader sets up on its
+	// first lookup is set up under concurrency
+	must(tr.Close())
+	tr, err = sstables.NewSSTableReader(ropts...)
+	must(err)
 	parallel(c.Goroutines, ml, func(id int, r *rand.Rand) {
 		for i := 0; i < c.Calls; i++ {
 			switch x := r.Intn(20); {
